@@ -10,6 +10,7 @@ class PDAObjectCreator:
     def __init__(self, terminals, variables):
         self._inverse_symbol = {}
         self._inverse_stack_symbol = {}
+        self._used_stack_values = set()
         for terminal in terminals:
             self._inverse_symbol[terminal] = None
             self._inverse_stack_symbol[terminal] = None
@@ -35,6 +36,10 @@ class PDAObjectCreator:
             value = str(stack_symbol.value)
             if isinstance(stack_symbol, cfg.Terminal):
                 value = "#TERM#" + value
+            # Two different symbols of the grammar can print alike
+            while value in self._used_stack_values:
+                value += "#"
+            self._used_stack_values.add(value)
             temp = pda.StackSymbol(value)
             self._inverse_stack_symbol[stack_symbol] = temp
             return temp
